@@ -66,8 +66,9 @@ def segs_str(segs):
 
 
 def p_seg(txt):
-    streams = {}   # stream name -> {filename -> [LocatorAndRange]}
-    order = []
+    # combined path = stream name + "/" + file name; like the SDK's collection import, a file is
+    # filed under the directory part of its combined path, so one path has one (stream, file) key
+    streams = {}   # directory -> {basename -> [LocatorAndRange]}, in manifest order
     for line in txt.split("\n")[:-1]:
         toks = line.split(" ")
         sname = unescape(toks[0])
@@ -77,20 +78,18 @@ def p_seg(txt):
             blocks.append(R.Range(toks[i], pos, size, 0))
             pos += size
             i += 1
-        st = streams.setdefault(sname, {})
         for ft in toks[i:]:
             p, l, name = ft.split(":", 2)
-            name = unescape(name)
-            st.setdefault(name, [])
-            st[name].extend(R.locators_and_ranges(blocks, int(p), int(l)))
+            d, base = (sname + "/" + unescape(name)).rsplit("/", 1)
+            streams.setdefault(d, {}).setdefault(base, []).extend(R.locators_and_ranges(blocks, int(p), int(l)))
     files = []
-    for sname, st in streams.items():
-        for name, segs in st.items():
-            files.append(hx(sname + "/" + name) + "=" + segs_str(segs))
+    for d, st in streams.items():
+        for base, segs in st.items():
+            files.append(hx(d + "/" + base) + "=" + segs_str(segs))
     files.sort()
     norm = ""
-    for sname in sorted(streams):
-        norm += " ".join(N.normalize_stream(sname, streams[sname])) + "\n"
+    for d in sorted(streams):
+        norm += " ".join(N.normalize_stream(d, streams[d])) + "\n"
     return "ok " + (";".join(files) or "-") + " " + hx(norm)
 
 
